@@ -287,7 +287,8 @@ Definition feed_old (fx : fixes) (s : st) (chunk : list Z) : st * list out :=
   if RECVBUF <? curr then ({| buf := buf s; stale := stale s; mq := mq s; halted := true |}, [Fault])
   else sync fx {| buf := take curr whole; stale := drop curr whole; mq := mq s; halted := false |}.
 
-Inductive ev := Start (n : Z) | Seg (chunk : list Z) | Tick | Sub (pid sz : Z) | Ping.
+Inductive ev := Start (n : Z) | Seg (chunk : list Z) | Tick | Sub (pid sz : Z) | Ping
+              | Pub (pid sz : Z).   (* the device queues a QoS 1 PUBLISH of sz bytes with packet id pid (mqtt_publish) *)
 
 Definition device_pack (s : st) (ct pid sz : Z) : st * list out :=
   match try_pack ct pid sz (mq s) with
@@ -310,6 +311,7 @@ Definition step (fx : fixes) (s : st) (e : ev) : st * list out :=
             else ({| buf := buf s1; stale := stale s1; mq := clean (mq s1); halted := false |}, o1)
   | Sub pid sz => device_pack s CT_SUBSCRIBE pid sz
   | Ping => device_pack s CT_PINGREQ 0 2
+  | Pub pid sz => device_pack s CT_PUBLISH pid sz
   end.
 
 Fixpoint run_from (fx : fixes) (s : st) (evs : list ev) : st * list out :=
@@ -364,6 +366,7 @@ Definition ev_of_wire (w : wire) : ev :=
     else if k =? 1 then Seg b
     else if k =? 2 then Tick
     else if k =? 3 then Sub (nth 0 a 0) (nth 1 a 0)
+    else if k =? 5 then Pub (nth 1 a 0) (nth 2 a 0)
     else Ping
   end.
 Definition fx_of_wire (ws : list wire) : fixes :=
